@@ -211,6 +211,12 @@ def run(ctx):  # noqa: C901, PLR0912, PLR0915
                 unparse(n.targets[0].value) == 'self.LocationDetail' and isinstance(n.value, ast.Attribute) and \
                 dotted(n.value.value) == 'sdc_location':
             smap[n.value.attr] = n.targets[0].attr
+            # every element is taken over, also None (an element that the new location does not have must not keep the value of
+            # the previous location): the store is unconditional
+            gst_ = cfg_of(st)
+            hn_ = gst_.holder(n)
+            if hn_ is not None and list(gst_.facts_at(hn_).both()):
+                smap[n.value.attr] = f'{n.targets[0].attr} (only under {[t for t, _p in gst_.facts_at(hn_).both()][:2]})'
     ctx.ob('C16.R2', 'provider query keys', set(qmap) == set(elements),
            'the keys written by scopesfactory._query_from_location_state are exactly url_elements', fi=qf,
            witness={'query_keys': sorted(qmap), 'url_elements': elements})
